@@ -80,6 +80,7 @@ type SConn struct {
 	Compression string
 	Started     bool
 	Authed      bool
+	AuthRound   int
 	Keyspace    string
 	Registered  []string
 	Requests    []*ReqRec
@@ -135,6 +136,13 @@ type Cluster struct {
 	PeerQueries int
 	// SystemQueryHook handles further system queries (schema tables); true = handled.
 	SystemQueryHook func(sc *SConn, rec *ReqRec) bool
+	// AuthRounds > 1 makes the node answer the first AuthRounds-1 AUTH_RESPONSE frames of a
+	// connection with AUTH_CHALLENGE "challenge-<n>"; OnAuthResponse sees every token.
+	AuthRounds     int
+	OnAuthResponse func(sc *SConn, round int, token []byte)
+	// EventsToAll makes PushEvent send on every started connection, registered or not
+	// (a misbehaving node).
+	EventsToAll bool
 	// SystemFateFn, when set, decides the fate of each system reply.
 	SystemFateFn func(sc *SConn, rec *ReqRec) Fate
 
@@ -337,6 +345,15 @@ func (cl *Cluster) handle(sc *SConn, frame []byte) {
 			cl.sendRaw(sc, rec, &cqlspec.Response{Op: cqlspec.OpReady}, cl.SystemFate, "READY", false)
 		}
 	case cqlspec.OpAuthResponse:
+		if cl.OnAuthResponse != nil {
+			cl.OnAuthResponse(sc, sc.AuthRound, rq.AuthToken)
+		}
+		sc.AuthRound++
+		if sc.AuthRound < cl.AuthRounds {
+			// a SASL mechanism with several steps
+			cl.Send(sc, rec, &cqlspec.Response{Op: cqlspec.OpAuthChallenge, AuthToken: []byte(fmt.Sprintf("challenge-%d", sc.AuthRound))}, cl.SystemFate, "AUTH_CHALLENGE")
+			return
+		}
 		sc.Started, sc.Authed = true, true
 		cl.Send(sc, rec, &cqlspec.Response{Op: cqlspec.OpAuthSuccess, AuthNull: true}, cl.SystemFate, "AUTH_SUCCESS")
 	case cqlspec.OpRegister:
@@ -510,7 +527,7 @@ func (cl *Cluster) PushEvent(ev *cqlspec.Response) int {
 				reg = true
 			}
 		}
-		if !reg {
+		if !reg && !(cl.EventsToAll && sc.Started) {
 			continue
 		}
 		e := *ev
